@@ -208,6 +208,9 @@ func init() {
 	reg("Perturb", func(fr *frame, a []value) value { return nil })
 	reg("Yield", func(fr *frame, a []value) value {
 		fr.i.sched.yield(fr)
+		// database/sql's watcher goroutine rolls a transaction back once its
+		// context has ended; it has had its turn by now
+		fr.i.sqlSweep(fr)
 		return nil
 	})
 	reg("GoroutinesBlocked", func(fr *frame, a []value) value {
